@@ -17,7 +17,7 @@
 (*   Quiesced  the harness saw no activity for a whole idle interval          *)
 (*   Final goroutines_left ports_rebound custom_close events_closed | Panic   *)
 (* Every event carries seq (global order) and t (milliseconds).               *)
-EXTENDS Integers, Sequences, SequencesExt, FiniteSets, FiniteSetsExt, MavFrame, MavMessage
+EXTENDS Integers, Sequences, SequencesExt, FiniteSets, FiniteSetsExt, MavFrame, MavMessage, SrRule
 
 CONSTANTS Defs,        \* reflected message definitions (for heartbeat / stream request decoding, checksums)
           HbDef, SrDef, TagDef   \* indices into Defs of HEARTBEAT, REQUEST_DATA_STREAM, NAMED_VALUE_INT
@@ -96,7 +96,7 @@ OnEvFrame(m, ev) ==
       q2 == IF idx = {} THEN q ELSE SubSeq(q, Min(idx) + 1, Len(q))
       m3 == [m2 EXCEPT !.pend = Put(@, pk, q2)]
   IN IF ev.id = 0 /\ ev.autopilot = 3
-     THEN [m3 EXCEPT !.apHb = Append(@, [ep |-> ev.ep, inst |-> ev.inst, sys |-> ev.sys, comp |-> ev.comp, seq |-> ev.seq])]
+     THEN [m3 EXCEPT !.apHb = Append(@, [ep |-> ev.ep, inst |-> ev.inst, sys |-> ev.sys, comp |-> ev.comp, seq |-> ev.seq, t |-> ev.t])]
      ELSE m3
 
 OnEvOther(m, ev) == Check(m, "C10.event_only_between_open_and_close", IsOpen(m, Key(ev)), ev)
@@ -232,7 +232,7 @@ OnOutStreamReq(m, ev, f) ==
       m1 == Check(m, "C16.no_stream_request_unless_enabled", SrWanted(m), ev)
       m2 == Check(m1, "C16.stream_request_fields", d.ok /\ FieldVal(v, 4) = rate /\ FieldVal(v, 5) = 1, ev)
       m3 == AfterOrig(ApplyClauses(m2, OrigClauses(m2, ev, f, SrDef), ev), ev, f)
-  IN [m3 EXCEPT !.sr = Append(@, [ep |-> ev.ep, sys |-> FieldVal(v, 1), comp |-> FieldVal(v, 2), stream |-> FieldVal(v, 3), seq |-> ev.seq])]
+  IN [m3 EXCEPT !.sr = Append(@, [ep |-> ev.ep, sys |-> FieldVal(v, 1), comp |-> FieldVal(v, 2), stream |-> FieldVal(v, 3), seq |-> ev.seq, t |-> ev.t])]
 
 OnOut(m, ev) ==
   LET f == ev.f IN
@@ -388,7 +388,19 @@ FinalAuto(m, ev) ==
       streams(k) == [i \in 1..Len(reqs(k)) |-> reqs(k)[i].stream]
       evs(k) == SelectSeq(m.srEv, LAMBDA r : r.ep = k[1] /\ r.sys = k[2] /\ r.comp = k[3])
       steadyKey(k) == Steady(m, k[1])
-      okKey(k) == ~steadyKey(k) \/ (streams(k) = <<1, 2, 3, 6, 10, 11, 12>> /\ Len(evs(k)) = 1)
+      \* the rule (SrRule, also what the model ISr is checked against): the first heartbeat of a sender and every later one
+      \* that comes at least 30 s after the sender's last burst trigger the seven requests and one event
+      hbT(k) == LET sel == SelectSeq(m.apHb, LAMBDA h : h.ep = k[1] /\ h.sys = k[2] /\ h.comp = k[3])
+                IN [i \in 1..Len(sel) |-> sel[i].t]
+      due(k) == Due(hbT(k), 30000)
+      nDue(k) == Len(due(k))
+      \* the i-th burst is the answer to the i-th due heartbeat (sent before the heartbeat's own event is delivered)
+      onTime(k) == \A i \in 1..nDue(k) : LET b == reqs(k)[7 * (i - 1) + 1].t IN b - due(k)[i] >= -1000 /\ b - due(k)[i] <= 3000
+      \* recorded times are the consumer's, the code compares its own: a heartbeat within 400 ms of the boundary is not judged
+      nearBoundary(k) == \E i \in 1..Len(hbT(k)), j \in 1..Len(reqs(k)) :
+                            LET d == hbT(k)[i] - reqs(k)[j].t IN d > 30000 - 400 /\ d < 30000 + 400
+      wanted(k) == FlattenSeq([i \in 1..nDue(k) |-> Streams])
+      okKey(k) == ~steadyKey(k) \/ nearBoundary(k) \/ (streams(k) = wanted(k) /\ Len(evs(k)) = nDue(k) /\ onTime(k))
       stray == {i \in 1..Len(m.sr) : <<m.sr[i].ep, m.sr[i].sys, m.sr[i].comp>> \notin keys}
       m2 == Check(m1, "C16.exactly_the_seven_stream_requests_once_per_sender", ~SrWanted(m) \/ \A k \in keys : okKey(k), ev)
       m3 == Check(m2, "C16.stream_requests_only_to_ardupilot_senders_on_their_channel", stray = {}, ev)
